@@ -433,8 +433,10 @@ Proof.
       * pose proof (dst_copy_path _ _ _ src D0 eq_refl) as R2.
         destruct (copy_path_m muri_empty src s) as [[ok2 d2] s2]. destruct R2 as (D2 & Fl2).
         destruct ok2; cbn [negb]; cbv beta iota; [|fail_exit2 D2 Fl2].
-        pose proof (dst_fix_ambiguity _ _ _ (dst_abs _ _ _ true D2)) as R4.
-        destruct (fix_ambiguity_m (set_m_abs true d2) s2) as [[ok4 d4] s4]. destruct R4 as (D4 & Fl4).
+        pose proof (dst_fix_empty_trail _ _ _ (dst_abs _ _ _ true D2)) as R3.
+        destruct (fix_empty_trail_m (set_m_abs true d2) s2) as [d3 s3].
+        pose proof (dst_fix_ambiguity _ _ _ R3) as R4.
+        destruct (fix_ambiguity_m d3 s3) as [[ok4 d4] s4]. destruct R4 as (D4 & Fl4).
         destruct ok4; cbn [negb]; cbv beta iota; [|fail_exit2 D4 Fl4].
         split; [apply dst_fragment; apply dst_query; exact D4|left; reflexivity].
       * destruct (skip_common (pathSegs (erase src)) (pathSegs (erase base))) as [s' b'].
